@@ -214,3 +214,58 @@ def c18(work, tier, seed):
                             "outcome = exit vs listening; keys of length 0/1/31/32: what instance A mints (access cookie, session cookie, user token) is presented to instance B started from the same configuration; TLC judges with Config!Refuse / KeyKept",
                             jobs=16)
     return out
+
+
+# ------------------------------------------------------------------ C20
+
+def c20(work, tier, seed):
+    dot = work.path("kdc.dot")
+    design = design_check("KdcProxy", "MC_KdcProxy.cfg", work, workers=8, timeout=600)
+    gen = tlc("KdcProxy", "MC_KdcProxyGen.cfg", work, workers=4, timeout=300, extra=["-dump", "dot", dot])
+    if not gen["ok"]:
+        raise HarnessError("KdcProxy generator run failed:\n" + tail_errors(gen["out"]))
+    nodes, roots, edges = parse_dot(dot)
+    rng = random.Random(seed)
+    inits = []
+    for n in roots:
+        v = state_vars(nodes[n])
+        inits.append((parse_tla_value(v["req"]), parse_tla_value(v["beh"])))
+    inits.sort(key=lambda x: json.dumps(x, sort_keys=True))
+    sizes = [0, 1, 100, 1400, 60000, 131000 - 200]
+    scripts = []
+
+    def conc(b, h):
+        if b == "reply":
+            return [{"tcp": "reply-close", "udp": "silent"}, {"tcp": "reply-keepopen", "udp": "silent"}, {"tcp": "silent", "udp": "reply"}, {"tcp": "reply-close", "udp": "reply"}][h % 4]
+        if b == "refuse":
+            return {"tcp": "refuse", "udp": "refuse"}
+        return {"tcp": b, "udp": "silent"}
+    chosen = inits
+    if tier == "quick":
+        # all request classes with one KDC environment each + every KDC behaviour pair for the valid request
+        valid = [x for x in inits if x[0]["method"] == "POST" and x[0]["len"] == "ok" and x[0]["body"] == "valid" and x[0]["realm"] != "unknown"]
+        other = [x for x in inits if x not in valid]
+        rng.shuffle(other)
+        seen, keep = set(), []
+        for x in other:
+            k = json.dumps(x[0], sort_keys=True)
+            if k not in seen:
+                seen.add(k)
+                keep.append(x)
+        rng.shuffle(valid)
+        chosen = keep + valid[:70]
+    for i, (req, beh) in enumerate(chosen):
+        h = stable_hash(json.dumps([req, beh], sort_keys=True) + str(seed))
+        kd = [conc(beh[k], h + j) for j, k in enumerate(sorted(beh))]
+        if h % 5 == 0:
+            kd = kd[:1]
+        elif h % 7 == 0:
+            kd = kd + [conc("reply", h)]
+        scripts.append({"id": "q%05d" % i, "method": ["GET", "PUT", "DELETE"][h % 3] if req["method"] == "GET" else "POST", "len": req["len"], "body": req["body"], "realm": req["realm"],
+                        "size": sizes[h % len(sizes)], "kdcs": kd, "target": "handler"})
+    out, rep, res = generic("C20", work, tier, seed, "kdc", "KdcTrace", scripts, design,
+                            lambda v: "%s/%s" % (v["guard"], "valid" if v["a"].startswith("POST.ok.valid") else v["a"]),
+                            "KdcProxy.tla: request classes x KDC behaviours for 2 KDCs, safety invariants and liveness (every request is answered) under fairness (design). Conformance: requests enumerated by TLC "
+                            "(method x length x body x realm x behaviour of each KDC in {reply, partial, close, silent, refuse}) with Kerberos payloads of 0 B..128 KiB sent to the real kdcproxy.Handler configured with a "
+                            "generated krb5.conf pointing at fake TCP+UDP KDCs; status, latency, bytes at the KDCs and the returned KDC-PROXY-MESSAGE judged by TLC", jobs=32)
+    return out
